@@ -77,6 +77,26 @@ def gen_vm_program(rnd, size):
                 else:
                     out.append({'expr': {'name': 'r', 'expr': call_expr('arraySort', arr, V(f))}})
                 classes.add('callback')
+            elif k < 0.86 and funcs:
+                # a data helper whose expression calls a script function once per row; with a variables object the helper evaluates
+                # under a copy of the options; a row that is not an object makes the call fail part-way (null) - after the earlier
+                # rows already ran the function
+                f = rnd.choice(funcs)
+                cells = [call_expr('objectNew', {'string': 'a'}, {'number': float(x)}) for x in rnd.sample([1, 2, 3, 4, 5], rnd.randint(1, 4))]
+                if rnd.random() < 0.4:
+                    cells.insert(rnd.randint(0, len(cells)), {'number': 7.0})
+                    classes.add('data-helper-fails-part-way')
+                args = [call_expr('arrayNew', *cells)]
+                helper = rnd.choice(['dataFilter', 'dataCalculatedField'])
+                if helper == 'dataCalculatedField':
+                    args.append({'string': 'b'})
+                args.append({'string': f + '(a)'})
+                variables = rnd.choice([None, None, call_expr('objectNew', {'string': 'q'}, {'number': 1.0}), call_expr('objectNew')])
+                if variables is not None:
+                    args.append(variables)
+                    classes.add('data-helper-with-variables')
+                out.append({'expr': {'name': 'r', 'expr': call_expr(helper, *args)}})
+                classes.add('callback')
             elif k < 0.92 and not in_func and depth == 0 and len(files) < 4:
                 name = 'inc%d.bare' % len(files)
                 files[name] = None      # reserve the name (acyclic: a file only includes files created after it)
@@ -143,10 +163,41 @@ def run_impl_model(model, files_text, limit, globals0):
     return res, logs, opts.get('statementCount'), g
 
 
+def _vm_rows(vm, data, text):
+    """The helpers as the documentation reads: the expression `<fn>(a)` is evaluated once per row, in order, with the row's members
+    as variables; a row that is not an object makes the whole call fail (null)."""
+    fn = vm.g.get(text[:-3])
+    for row in data:
+        if not isinstance(row, dict):
+            raise _HelperFails()
+        yield row, vm.call_value(fn, [row.get('a')])
+
+
+class _HelperFails(Exception):
+    pass
+
+
+def _vm_data_filter(args, vm):
+    try:
+        return [row for row, keep in _vm_rows(vm, args[0], args[1]) if jumpvm.interp.truthy(keep)]
+    except _HelperFails:
+        return None
+
+
+def _vm_data_calculated_field(args, vm):
+    try:
+        for row, value in _vm_rows(vm, args[0], args[2]):
+            row[args[1]] = value
+        return args[0]
+    except _HelperFails:
+        return None
+
+
 def run_ref_model(model, files, limit, globals0):
     logs = []
     g = copy.deepcopy(globals0)
-    vm = jumpvm.JumpVM(g, logs, max_statements=limit, fetch=lambda loc: files[loc]['statements'] if loc in files else None)
+    vm = jumpvm.JumpVM(g, logs, max_statements=limit, fetch=lambda loc: files[loc]['statements'] if loc in files else None,
+                       host={'dataFilter': _vm_data_filter, 'dataCalculatedField': _vm_data_calculated_field})
     try:
         res = ('ok', vm.run_model(model))
     except jumpvm.VMRuntimeError as e:
